@@ -579,7 +579,62 @@ def row_time(c: Ctx) -> None:
             c.bad("reader-accepts-null:read_datetime_i64", f"read_datetime_i64(-1) returned {v!r}")
 
 
-ROWS = (row_fixed_ints, row_bool_float, row_varints, row_strings, row_arrays, row_uuid_error_tagged_exact, row_time)
+class _Boom(Exception):
+    pass
+
+
+def row_after_failure(c: Ctx) -> None:
+    """A call that fails part-way (item writer raises after some output, sink error, out-of-domain value) must not influence the
+    next call of the same function."""
+    R, W = c.R, c.W  # noqa: N806
+    if c.i != 8 % c.n:
+        return
+
+    def part_then_boom(buf, v):  # noqa: ANN001, ANN202
+        buf.write(b"\xde\xad")
+        raise _Boom
+
+    def quiet(fn, *a):  # noqa: ANN001, ANN002, ANN202
+        try:
+            fn(*a)
+        except Exception:  # noqa: BLE001
+            pass
+        c.res.count("failed_calls_injected")
+
+    # write_tagged_field: value writer fails after producing bytes, then a normal call
+    for tag, payload in ((3, b"\x00\x00\x00\x05"), (0, b""), (200, b"x" * 130)):
+        quiet(W.write_tagged_field, WriteOnlySink(), 1, part_then_boom, None)
+        quiet(W.write_tagged_field, WriteOnlySink(), 1, W.compact_array_writer(W.write_int32), (1, 2**31))
+        sink = WriteOnlySink()
+        W.write_tagged_field(sink, tag, lambda b, v: b.write(v), payload)
+        c.tick(W.write_tagged_field)
+        want = refcodec.uvarint(tag) + refcodec.uvarint(len(payload)) + payload
+        if sink.observed_bytes() != want:
+            c.bad("after-failure:write_tagged_field", f"after a failed call, write_tagged_field(tag={tag}) wrote {sink.observed_bytes().hex()[:60]} instead of {want.hex()[:60]}")
+    # array writers: an item fails in the middle, then a normal call
+    for mk, rd in ((W.compact_array_writer, R.compact_array_reader), (W.legacy_array_writer, R.legacy_array_reader)):
+        w = mk(W.write_int32)
+        quiet(w, WriteOnlySink(), (1, 2, 2**31, 4))
+        quiet(w, WriteOnlySink(fail_at=2, fail_exc=OSError("injected")), (1, 2, 3))
+        head = refcodec.uvarint(3) if mk is W.compact_array_writer else (2).to_bytes(4, "big")
+        c.expect_encoding(w, rd(R.read_int32), (7, -7), head + (7).to_bytes(4, "big", signed=True) + (-7).to_bytes(4, "big", signed=True))
+    # every simple writer: a sink error on the first write, then a normal call
+    simple = ((W.write_int32, R.read_int32, 5, (5).to_bytes(4, "big")), (W.write_unsigned_varint, R.read_unsigned_varint, 300, refcodec.uvarint(300)),
+              (W.write_signed_varlong, R.read_signed_varlong, -2**40, refcodec.svarlong(-2**40)), (W.write_compact_string, R.read_compact_string, "héllo", b"\x07h\xc3\xa9llo"),
+              (W.write_nullable_legacy_string, R.read_nullable_legacy_string, "ab", b"\x00\x02ab"), (W.write_legacy_bytes, R.read_legacy_bytes, b"\x01\x02", b"\x00\x00\x00\x02\x01\x02"),
+              (W.write_uuid, R.read_uuid, uuid.UUID(int=5), (5).to_bytes(16, "big")), (W.write_float64, R.read_float64, 1.5, f64_bits(1.5).to_bytes(8, "big")),
+              (W.write_timedelta_i64, R.read_timedelta_i64, datetime.timedelta(milliseconds=12345), (12345).to_bytes(8, "big")),
+              (W.write_datetime_i64, R.read_datetime_i64, EPOCH + 1503229838908 * MS, (1503229838908).to_bytes(8, "big")))
+    for w, r, v, want in simple:
+        for k in (0, 1):
+            quiet(w, WriteOnlySink(fail_at=k, fail_exc=OSError("injected")), v)
+        # a reader that hit a short stream, then a normal call
+        exc, _, _ = c.read(r, want[:-1], tail=b"")
+        c.res.count("failed_calls_injected")
+        c.expect_encoding(w, r, v, want)
+
+
+ROWS = (row_after_failure, row_fixed_ints, row_bool_float, row_varints, row_strings, row_arrays, row_uuid_error_tagged_exact, row_time)
 
 
 def public_functions() -> set[str]:
